@@ -508,7 +508,7 @@ class C20(Prop):
         self._totals = None
 
     def budget(self, tier):
-        return dict(examples=4000, shards=16) if tier == "quick" else dict(examples=80000, shards=16)
+        return dict(examples=4000, shards=16) if tier == "quick" else dict(examples=60000, shards=16)
 
     def strategy(self, tier):
         return st.one_of(graph_cases(tier), table_cases(tier))
@@ -688,6 +688,18 @@ class C20(Prop):
                 out.append(op)
             return out
 
+        try:
+            ops()
+        except AssertionError as e:
+            sig, in_lib = lib_exception_sig(e)
+            if not sig.endswith("op.py:__init__"):
+                raise
+            # Op.product joins the symbols with blanks, and r"b^\dagger" "+" "b..." (SHO raising operator, spin "+",
+            # SHO symbol) is then read as the single symbol r"b^\dagger + b": the term cannot be expressed as an Op at all
+            # (symbol ambiguity of the Op class, subject of C15; nothing reaches the MPO builder)
+            r.rejected = "Op cannot express the term: 'b^\\dagger' '+' 'b...' is parsed as the single symbol 'b^\\dagger + b'"
+            r.nontrivial = False
+            return r
         calls = []
         orig = sm.bipartite_vertex_cover
 
